@@ -133,13 +133,13 @@ func runProgramE[E any](p qprog, src core.Source, cd lib.Codec[E]) *qrun {
 			for k := 0; n < 0 || k < n; k++ {
 				ok := false
 				if r.call(name, "Remove", 0, func(e *qevent) {
-				var head E
-				head, e.OK = q.RemoveHead()
-				ok = e.OK
-				if ok {
-					e.Val = cd.Dec(head)
-				}
-			}) {
+					var head E
+					head, e.OK = q.RemoveHead()
+					ok = e.OK
+					if ok {
+						e.Val = cd.Dec(head)
+					}
+				}) {
 					return
 				}
 				if !ok {
@@ -918,5 +918,11 @@ func TestC05(t *testing.T) {
 	core.DFS(r, core.Check[qprog]{Name: "all-schedules-element-types", Gen: genElemProgram, Exec: execProgram("C05"), Bounded: true}, r.N(4000, 200000))
 	core.Rapid(r, core.Check[qprog]{Name: "sampled-schedules", Gen: genRandomProgram, Exec: execProgram("C05")}, r.N(2500, 50000))
 	core.DFS(r, core.Check[ctorCase]{Name: "constructors", Gen: genCtor, Exec: execCtor}, 0)
+	core.Rapid(r, core.Check[stackFromQueueCase]{Name: "queue-from-busy-queue", Gen: func(s core.Source) stackFromQueueCase {
+		c := stackFromQueueCase{Target: "Queue", Cap: uint([]int{1, 2, 3, 16, 17}[s.Choose(5, "cap")])}
+		c.Values = int(c.Cap) - 1 + s.Choose(4, "values")
+		c.Delay = max(0, c.Values-s.Choose(3, "delay"))
+		return c
+	}, Exec: execStackFromQueue}, r.N(600, 6000))
 	familySweep(r, "C05")
 }
